@@ -28,6 +28,7 @@ var hists = []bind.Hist{
 	{Pivot: 2},
 	{LenBetween: true},
 	{Variant: 1},
+	{Variant: 2},
 }
 
 func histName(h bind.Hist) string {
